@@ -155,7 +155,7 @@ Step(e) ==
     [] OTHER -> [Base EXCEPT !.f = {"unknown-op"}]
 
 TraceInit ==
-  /\ kv = EmptyKV /\ dur = EmptyKV /\ ck = EmptyKV /\ st = [clean |-> TRUE, saved |-> FALSE, commits |-> 0, gcs |-> 0]
+  /\ kv = EmptyKV /\ dur = EmptyKV /\ ck = EmptyKV /\ st = [clean |-> TRUE, saved |-> FALSE, mark |-> FALSE, commits |-> 0, gcs |-> 0]
   /\ hist = <<>> /\ last = "init"
   /\ l = 1 /\ bad = {} /\ nbad = 0 /\ ntr = 0
   /\ store = {} /\ needs = EmptyFn /\ durRoot = 0 /\ ckRoot = 0 /\ written = {} /\ batch = {} /\ dirty = FALSE
